@@ -8,6 +8,7 @@ import dets
 import gen
 from common import Outcome, rng_for
 
+RULE_ADDENDA = ('streams of 4 300-5 200 updates; positions proved for the library defaults (C04d) replayed on the implementation')
 LEVEL = "proof"
 SHRINK_KEYS = ("stream",)
 EXPLANATION = ("Theorems: Hoeffding-test equivalence, two-sided extends one-sided, HDDM-A flip symmetry (Lean). This run evaluates "
